@@ -171,6 +171,44 @@ def stage_random(rep, props, *, label, flnames, histories, steps, seed, cfg, def
         rep.extra["random_histories"] = rep.extra.get("random_histories", 0) + histories
 
 
+def _fault_job(args):
+    from . import faults
+    states, flname, base = args
+    out = []
+    for k, st in enumerate(states):
+        out += faults.fault_records(st, flname, base + k * 1000)
+    return out
+
+
+def stage_faults(rep, props, *, label, max_nodes, d, flnames):
+    """C13 fault enumeration: for every state in the bound, every operation taking a user callback and every k,
+    the k-th invocation raises; TLC validates C01-C03 on what is left and 'unchanged' for read-only operations"""
+    import multiprocessing as mp
+    res = P.core_states(P.core_constants(max_nodes=max_nodes, d=d, ops=["add", "add_node"], emit=False))
+    if not res.ok:
+        raise P.TLCError(f"{label}: {res.errors[:3]}")
+    rep.add_mc(res, label + ":states")
+    sts = []
+    for r in res.json_lines():
+        if "state" in r:
+            s = core.norm_state(r["state"])
+            sts.append({x: s[x] for x in ("n", "par", "kids", "top", "dat", "did", "knd", "meta", "typed")})
+    res.cleanup()
+    for fn in flnames:
+        chunks = [sts[i::32] for i in range(32) if sts[i::32]]
+        jobs, base = [], 0
+        for ch in chunks:
+            jobs.append((ch, fn, base))
+            base += len(ch) * 1000
+        with mp.get_context("fork").Pool(16) as pool:
+            outs = pool.map(_fault_job, jobs)
+        recs = [r for o in outs for r in o]
+        mism, checked, wall = P.validate_records(recs, defdid="hash")
+        absorb(rep, recs, mism, props)
+        rep.stages.append({"stage": f"{label}:{fn}", "states": len(sts), "fault_injections": len(recs)})
+        rep.extra["fault_injections"] = rep.extra.get("fault_injections", 0) + len(recs)
+
+
 # ------------------------------------------------------------------------------------------------
 PLAIN_FLAVOURS = ["str", "int", "tuple", "dataclass", "dictwrapper", "keyed"]
 
@@ -234,6 +272,9 @@ def run(prop: str, tier: str) -> int:
     stage_random(rep, props, label="rnd:callback", flnames=["callback"], defdid="callback",
                  histories=60 if quick else 800, steps=40, seed=seed + 2,
                  cfg={"D": 4, "max_nodes": 12, "mk": 1})
+    if prop == "C13":
+        stage_faults(rep, props, label="faults<=3x2" if quick else "faults<=4x3", max_nodes=3 if quick else 4,
+                     d=2 if quick else 3, flnames=["str", "keyed"])
     rep.exhaustive = True
     return rep.finish()
 
